@@ -790,7 +790,7 @@ def run(res, tier, seed, proofs_ok):
                 clist(csurf(s) for s in surfs),
                 cres(out, lambda v: clist(cvec(x) for x in v))))
             base_meta.append(surfs)
-        if num % 3 == 0 or fault is not None:
+        if num % (5 if quick else 3) == 0 or fault is not None:
             first = rng.randrange(6) if rng.random() < 0.95 else rng.choice([6, 7])
             vout = guarded(LT.hexVertices, surfs, first)
             if vout[0] == 'err' or finite(vout[1]):
@@ -809,7 +809,7 @@ def run(res, tier, seed, proofs_ok):
                                                  'listing': listing},
                                        'observed': repr(vout)},
                                       found_input=True)
-        if num % (8 if quick else 5) == 0 or fault is not None:
+        if num % (10 if quick else 5) == 0 or fault is not None:
             six = surfs[:6] if rng.random() < 0.9 else surfs
             sout = guarded(LT.hexSortSides, six)
             if sout[0] == 'err' or finite(sout[1]):
@@ -817,7 +817,8 @@ def run(res, tier, seed, proofs_ok):
                                         cres(sout, cadj)))
                 sort_meta.append(six)
                 res.count('sort:' + (sout[1] if sout[0] == 'err' else 'ok'))
-        if (num % 4 == 0 or fault is not None) and len(surfs) >= 6:
+        if (num % (6 if quick else 4) == 0 or fault is not None) \
+                and len(surfs) >= 6:
             i, j = rng.sample(range(6), 2)
             k = rng.choice([x for x in range(6) if x not in (i, j)])
             k2 = rng.randrange(len(surfs))
